@@ -83,9 +83,11 @@ ReplicaDone(i) ==
         /\ removedOk' = IF ok THEN removedOk \ {call.b} ELSE removedOk
   /\ UNCHANGED <<cfgvars, call, outcome, pendingBg, reply>>
 
-(* Intended mechanism: the remaining uploads finish (or are cancelled) before the call returns. *)
+(* An upload completes after the tally loop has decided but before the caller has its answer: in the
+   intended mechanism all remaining uploads do (or are cancelled); in the code they merely may - the
+   return and the stragglers run concurrently. *)
 LateDone(i) ==
-  /\ ~Stragglers /\ call.op = "recv" /\ ret \in {"ok", "err"} /\ i \in W \ done
+  /\ call.op = "recv" /\ ret \in {"ok", "err"} /\ i \in W \ done
   /\ done' = done \cup {i}
   /\ has' = [has EXCEPT ![i] = IF Stored(outcome[i]) THEN @ \cup {call.b} ELSE @]
   /\ UNCHANGED <<cfgvars, call, outcome, nSuccess, ret, acked, removedOk, copiesAtAck, pendingBg, reply>>
